@@ -3,6 +3,7 @@ CONSTANTS
   AddrNegCountPanic = FALSE
   OfflineSigSkipped = FALSE
   Level = 0
+  ExtraBases <- ExtraGen
 VIEW view
 PROPERTIES NoPanic HeaderChecksOK
 INVARIANTS EveryTypeRoundTrips
